@@ -471,6 +471,7 @@ def necessary(case, d):
     prev_n = {}
     prev_closing = {}
     final_frames = {q: d.frames_of(q) for q in d.order}
+    refused = set()
 
     def facts(q):
         """(idents validly authenticated, channels it asked to subscribe, publishes it sent) so far"""
@@ -512,8 +513,13 @@ def necessary(case, d):
         for r, s in snap.items():
             new = final_frames[r][prev_n.get(r, 0):s['nframes']]
             for op, body in new:
+                if op == P.OP_ERROR:
+                    refused.add(r)      # the broker's OP_ERROR is always followed by transport.close()
                 if op != P.OP_PUBLISH:
                     continue
+                if r in refused:
+                    # also inside one read: a request the broker refused, then - behind it in the same read - a publish
+                    flag('C04', k, 'an OP_PUBLISH was written to connection %d after the broker had sent it OP_ERROR and closed it' % r)
                 try:
                     i, rest = unpack8(body)
                     c, payload = unpack8(rest)
